@@ -26,14 +26,14 @@ SPEC = dict(
           "(compared with the hand-written [length LE]['Enc0'] frame and with each other, read back crosswise through chopped pipes) and sent "
           "through a C++ MessageIOGateway over TCP loopback to message_transceiver_thread.py, which echoes them: the echoed byte stream must equal "
           "the sent one; C++ senders with MUSCLE_MESSAGE_ENCODING_ZLIB_1..9 (tiny and field-less Messages mixed in) are walked by hand: Enc0 exactly when the body is the plain Message, "
-          "otherwise the body inflates to it, and a second C++ gateway reads the stream back.  Zero-item fields (C++ via a shared array, Python [], reference codec) are part of the wire scripts.  distinct = distinct flattened byte strings"),
+          "otherwise the body inflates to it, and a second C++ gateway reads the stream back; every C++ gateway output (plain, zlib, TCP) is driven with PRNG-chosen DoOutput(maxBytes) budgets (1, 7, 8, 9, 100, ..., 256 kB, unlimited).  Zero-item fields (C++ via a shared array, Python [], reference codec) are part of the wire scripts.  distinct = distinct flattened byte strings"),
     assumptions=['the layout comment in Message::Flatten plus the per-type rules stated in the property are the specification (ref/codec.py)',
                  'strings on the Python leg are valid UTF-8 without NUL; NaN inside point/rect is not exercised on the Python leg (CPython float32->double->float32 may quieten a signalling NaN)',
                  'micro-message construction is append-only with unique field names (its documented rules)',
                  'python3 (CPython >= 3.8) is available; if it cannot be started the run is a harness failure (exit 2), never a pass',
                  'g++ 12 ASan/UBSan/LSan report what they claim to report; the misaligned link pointer in MiniMessageGateway.c is allow-listed (DESIGN.md 2.1)'],
     legs=[
-        Leg('regress', 'h_wire', 'asan', opts=_o(mode='regress'), quick=10, thorough=10, workers=1, leaks=True, min_cases=10),
+        Leg('regress', 'h_wire', 'asan', opts=_o(mode='regress'), quick=11, thorough=11, workers=1, leaks=True, min_cases=11),
         Leg('wire', 'h_wire', 'asan', opts=_o(mode='wire'), quick=200000, thorough=8000000, workers=16, leaks=True),
         Leg('frame', 'h_wire', 'asan', opts=_o(mode='frame'), quick=3200, thorough=96000, workers=16, leaks=True, per_worker_min=10),
         Leg('memcheck', 'h_wire', 'plain', opts=_o(mode='wire'), quick=1200, thorough=32000, workers=16, valgrind=True),
@@ -56,8 +56,8 @@ SPEC = dict(
                  'items_bool': 4000, 'items_i8': 4000, 'items_i16': 4000, 'items_i32': 4000, 'items_i64': 4000, 'items_f32': 4000, 'items_f64': 4000,
                  'items_str': 4000, 'items_pt': 4000, 'items_rc': 4000, 'items_raw': 4000, 'items_msg': 4000},
         'frame': {'frames_compared_in_memory': 2000, 'frames_echoed_by_python': 2000, 'python_echo_peers_started': 1,
-                  'zlib_sender_streams_checked': 2000, 'zlib_frames_deflated': 5000, 'zlib_frames_sent_plain_below_32_bytes': 2000, 'c_gateways_refused_zlib_frame': 2000,
+                  'dooutput_budget_ended_inside_a_frame': 5000, 'dooutput_budget_ended_inside_a_frame_on_tcp': 500, 'zlib_sender_streams_checked': 2000, 'zlib_frames_deflated': 5000, 'zlib_frames_sent_plain_below_32_bytes': 2000, 'c_gateways_refused_zlib_frame': 2000,
                   'zlib_sender_level_1': 100, 'zlib_sender_level_5': 100, 'zlib_sender_level_9': 100},
-        'regress': {'python_documentation_example_checked': 1, 'documented_frame_checked': 1, 'wrapped_ring_fields_in_witness': 1, 'used_target_witness_checked': 1, 'zero_item_witness_checked': 1, 'zlib_witness_checked': 1, 'python_refused_zlib_frame': 1, 'zlib_frames_sent_plain_below_32_bytes': 3},
+        'regress': {'python_documentation_example_checked': 1, 'documented_frame_checked': 1, 'wrapped_ring_fields_in_witness': 1, 'used_target_witness_checked': 1, 'zero_item_witness_checked': 1, 'zlib_witness_checked': 1, 'dooutput_budget_witness_checked': 1, 'dooutput_budget_ended_inside_a_frame': 100, 'python_refused_zlib_frame': 1, 'zlib_frames_sent_plain_below_32_bytes': 3},
     },
 )
